@@ -155,7 +155,7 @@ Proof.
   apply andb_true_iff in H as [H1 H2]. rewrite H1. cbn [andb]. revert H2. apply forallb_Forall_imp.
   eapply Forall_impl; [|exact IH]. intros [k it] Hk. unfold tnH1. cbn [snd fst] in *.
   destruct it as [|v|sub|ts asp]; auto. intro H. apply andb4 in H as (A1 & A2 & A3 & A4). apply andb4. repeat split; auto.
-  - unfold aot_end_ok in *. destruct asp as [sp0|]; [lia|reflexivity].
+  - unfold aot_end_ok in *. destruct asp as [sp0|]; [nlia|reflexivity].
   - revert A4. apply forallb_Forall_imp. exact Hk.
 Qed.
 
@@ -259,7 +259,7 @@ Section Step.
           apply Bool.not_true_is_false in Pq. rewrite Pq in B. discriminate B. }
         destruct (Hwin Hp a b eq_refl) as [La Ub].
         unfold kchain in Hch. cbn [app map chain] in Hch. destruct Hch as (x & y & Sk & G1 & G2 & G3).
-        rewrite (kspan_of_key_span a b k' x y Sk) by lia. rewrite Sv. cbn [osp_in]. apply sp_in_pair; lia.
+        rewrite (kspan_of_key_span a b k' x y Sk) by nlia. rewrite Sv. cbn [osp_in]. apply sp_in_pair; nlia.
     - assert (Pe : pe = false) by (apply Hpe; discriminate).
       unfold kchain in Hch. cbn [app map chain] in Hch. destruct Hch as (x & y & Sk & G1 & G2 & G3).
       fold (kchain y mid (ptl ++ [k'])) in G3. pose proof (chain_le _ _ _ G3) as Gle.
@@ -282,9 +282,9 @@ Section Step.
               unfold tflags in Fl. rewrite Dt in Fl. cbn [negb orb andb] in Fl. apply andb_true_iff in Fl as [Fl _].
               destruct (t_span sub) as [[a0 b0]|] eqn:Ss; [|discriminate Fl]. unfold widen; cbn [fst snd].
               eapply (IH sub (Some (N.min a0 x, N.max b0 e)) y); [| | | | |exact R].
-              + apply (tnestH_widen h sub a0 b0); [lia|lia|rewrite tnestH_unfold, Ss; exact Hit0|exact Ss].
+              + apply (tnestH_widen h sub a0 b0); [nlia|nlia|rewrite tnestH_unfold, Ss; exact Hit0|exact Ss].
               + exact G3.
-              + intros _ a b Eab. inversion Eab; subst. lia.
+              + intros _ a b Eab. inversion Eab; subst. nlia.
               + intro X; rewrite X in Pe; discriminate.
               + intros _. exact Pe.
             - (* an implicit super-table on the way: untouched *)
@@ -315,7 +315,7 @@ Section Step.
         { eapply (IH (Tbl [] decor_default true true None None) (Some (x, e)) y); [| | | | |exact R].
           - reflexivity.
           - exact G3.
-          - intros _ a b Eab. inversion Eab; subst. lia.
+          - intros _ a b Eab. inversion Eab; subst. nlia.
           - intro X; rewrite X in Pe; discriminate.
           - intros _. exact Pe. }
         rewrite tnestH_mk. apply andb_true_iff. split.
@@ -358,9 +358,9 @@ Proof.
   exists a, e. cbn [st_current st_root]. rewrite P1, P2, P3, Fs, Fd, Fi. repeat split; auto.
   rewrite <- (set_span_same cur'), Fs.
   eapply (okf_sds_nest a k' val pe mid av e Sv L1 L2 Hval path _ (Some (a, e)) c); [| | | | |exact W].
-  - rewrite set_span_set_span. eapply tnestH_widen; [| |exact Hc|exact S]; lia.
+  - rewrite set_span_set_span. eapply tnestH_widen; [| |exact Hc|exact S]; nlia.
   - unfold kchain. subst k'. rewrite map_key_span_set_leaf. exact Hch.
-  - intros _ x y Exy. inversion Exy; subst. lia.
+  - intros _ x y Exy. inversion Exy; subst. nlia.
   - intros _. rewrite implicit_set_span. exact Hi.
   - subst pe. destruct path; [congruence|reflexivity].
 Qed.
@@ -370,7 +370,7 @@ Lemma tnH1_mono h h' sp kv : (h <= h')%N -> tnH1 h sp kv = true -> tnH1 h' sp kv
 Proof.
   intros Hle. unfold tnH1. destruct (snd kv) as [|v|sub|ts asp]; auto; [apply tnestH_mono, Hle|].
   intro H. apply andb4 in H as (A1 & A2 & A3 & A4). apply andb4. repeat split; auto.
-  - unfold aot_end_ok in *. destruct asp; [lia|reflexivity].
+  - unfold aot_end_ok in *. destruct asp; [nlia|reflexivity].
   - revert A4. apply forallb_Forall_imp. apply Forall_forall. intros t _. apply tnestH_mono, Hle.
 Qed.
 Lemma tnH1_novalue h sp sp' kv : is_value (snd kv) = false -> tnH1 h sp kv = tnH1 h sp' kv.
@@ -411,7 +411,7 @@ Proof.
       * eapply tflags_keep; [exact F1'|]. intro Nv. eapply no_values_set; eauto.
       * eapply fb_set; [exact F2'|exact G|]. unfold tnH1; cbn [snd]. apply andb4. repeat split.
         -- rewrite (map_span_rev_last last last' rinit N2), <- Rv, rev_involutive. exact A1.
-        -- unfold aot_end_ok in *. destruct asp; [lia|reflexivity].
+        -- unfold aot_end_ok in *. destruct asp; [nlia|reflexivity].
         -- rewrite forallb_rev. cbn [forallb]. rewrite N3. rewrite <- forallb_rev, Rv in A3. exact A3.
         -- rewrite forallb_rev. cbn [forallb]. rewrite N1. cbn [andb]. revert Hri. apply forallb_Forall_imp.
            apply Forall_forall. intros t0 _. apply tnestH_mono, Hle.
@@ -440,14 +440,14 @@ Proof.
 Qed.
 
 Lemma aot_single a b : (a <= b)%N -> aot_nest (@cons ospan (Some (a, b)) nil) (Some (a, b)) = true.
-Proof. intro H. cbn [aot_nest forallb osp_in]. rewrite N.eqb_refl, (sp_in_pair a b a b) by lia. reflexivity. Qed.
+Proof. intro H. cbn [aot_nest forallb osp_in]. rewrite N.eqb_refl, (sp_in_pair a b a b) by nlia. reflexivity. Qed.
 
 (* the finished table (span (a, b), b <= p) joins an array of tables whose span ends at or before a *)
 Lemma f_fin_aot_nest a b p k table parent : (a <= b)%N -> (b <= p)%N ->
   tnestH p table = true -> t_span table = Some (a, b) -> t_dotted table = false ->
   tnestH a parent = true -> cres_post (wpost p (fun _ : unit => True) parent) (f_fin_aot k table parent).
 Proof.
-  intros Hab Hbp Ht S Hd Hp. assert (Hap : (a <= p)%N) by lia.
+  intros Hab Hbp Ht S Hd Hp. assert (Hap : (a <= p)%N) by nlia.
   pose proof (tnestH_mono a p Hap parent Hp) as Hp'. rewrite tnestH_unfold in Hp, Hp'.
   apply andb_true_iff in Hp as [F1 F2]. apply andb_true_iff in Hp' as [F1' F2']. unfold f_fin_aot.
   destruct (kv_get (t_items parent) (k_key k)) as [[k0 it]|] eqn:G.
@@ -465,7 +465,7 @@ Proof.
       destruct ts as [|first tl].
       * cbn [app map]. rewrite S. cbn [union_span fst snd]. apply andb4. repeat split; auto.
         -- apply aot_single, Hab.
-        -- unfold aot_end_ok; cbn [snd]. lia.
+        -- unfold aot_end_ok; cbn [snd]. nlia.
       * cbn [app]. cbn [map] in A1. destruct asp as [[a0 b0]|]; [|discriminate A1].
         cbn [aot_nest] in A1. destruct (t_span first) as [[x y]|] eqn:Sf; [|discriminate A1].
         apply andb_true_iff in A1 as [X1 X2]. apply N.eqb_eq in X1. subst x.
@@ -473,23 +473,23 @@ Proof.
         cbn [osp_in] in X2. unfold sp_in in X2; cbn [fst snd] in X2.
         rewrite S. cbn [union_span fst snd]. apply andb4. repeat split; auto.
         -- cbn [map aot_nest]. rewrite Sf, N.eqb_refl. cbn [andb forallb osp_in].
-           rewrite (sp_in_pair a0 b a0 y) by lia. cbn [andb]. rewrite map_app, forallb_app. cbn [map forallb].
-           rewrite S. cbn [osp_in]. rewrite (sp_in_pair a0 b a b) by lia. rewrite andb_true_r.
-           revert X3. apply forallb_Forall_imp. apply Forall_forall. intros o _. apply osp_in_mono; lia.
-        -- unfold aot_end_ok; cbn [snd]. lia.
+           rewrite (sp_in_pair a0 b a0 y) by nlia. cbn [andb]. rewrite map_app, forallb_app. cbn [map forallb].
+           rewrite S. cbn [osp_in]. rewrite (sp_in_pair a0 b a b) by nlia. rewrite andb_true_r.
+           revert X3. apply forallb_Forall_imp. apply Forall_forall. intros o _. apply osp_in_mono; nlia.
+        -- unfold aot_end_ok; cbn [snd]. nlia.
   - cbn [cres_post]. unfold wpost. rewrite span_set_items, dotted_set_items. repeat split; auto.
     rewrite tnestH_set_items. apply andb_true_iff. split.
     + eapply tflags_keep; [exact F1'|]. intro Nv. apply no_values_push; [exact Nv|reflexivity].
     + apply fb_push; [exact F2'|]. unfold tnH1; cbn [snd]. rewrite S. cbn [union_span fst snd map forallb].
       rewrite S, Hd, Ht. cbn [negb andb]. rewrite (aot_single a b Hab). unfold aot_end_ok; cbn [snd andb].
-      rewrite andb_true_r. lia.
+      rewrite andb_true_r. nlia.
 Qed.
 
 Lemma finalize_nest p st st' :
   st_in p st -> st_nest st -> finalize_table st = COk st' -> tnestH p (st_root st') = true.
 Proof.
   intros (a0 & b0 & S0 & I1 & I2 & _) (a & b & S & Hr & Hc & Hd & Hi) E.
-  rewrite S in S0. inversion S0; subst a0 b0. clear S0. assert (Hap : (a <= p)%N) by lia.
+  rewrite S in S0. inversion S0; subst a0 b0. clear S0. assert (Hap : (a <= p)%N) by nlia.
   destruct st as [root tr posn cur ia path]. cbn [st_current st_root st_trailing st_path] in *.
   pose proof (tnestH_mono a p Hap cur Hc) as Hc'.
   destruct (pop_key path) as [[ppath k]|] eqn:P.
